@@ -118,6 +118,10 @@ def case_coq(c):
     if k == "readsel":
         return "CReadSel %s %s [%s] %s %s" % ("true" if c["health"] else "false", nat(c["master"]),
                                               "; ".join("true" if x else "false" for x in c["online"]), nlist(c["shardPts"]), nlist(c.get("sel")))
+    if k == "persist":
+        acks = ["(%d, %d, %d, %d)" % (st.get("index", 0), st.get("term", 0), st.get("lastAt", 0), st.get("termAt", 0))
+                for st in c["steps"] if st.get("msg") in ("appresp", "voteresp")]
+        return "CPersist [%s]" % "; ".join(acks)
     if k == "batch":
         m = {"ok": "WOk", "retry-pt": "WRetry", "retry-conn": "WRetry", "fail": "WFail", "shardmeta": "WFail"}
         return "CBatch [%s] %s %s" % ("; ".join("[" + "; ".join(m[x] for x in sc) + "]" for sc in c["scripts"]),
@@ -237,7 +241,7 @@ def main(ck):
                               "Print Assumptions: closed under the global context (no axioms)",
                               "Go harness cmd/c05 (fake raft driver, recording storage), python driver props/C05/run.py"]
     ck.coq_audit(["C05"])
-    ok = ck.coq_build(["C05/Final.vo", "C05/TruncProofs.vo", "C05/Catchup.vo", "C05/Refine.vo", "C05/RestartRace.vo", "C05/TruncPM.vo", "C05/Coord.vo", "C05/Corr.vo"])
+    ok = ck.coq_build(["C05/Final.vo", "C05/TruncProofs.vo", "C05/Catchup.vo", "C05/Refine.vo", "C05/RestartRace.vo", "C05/TruncPM.vo", "C05/Coord.vo", "C05/Persist.vo", "C05/Corr.vo"])
     ck.c05_open = lambda fid: open_finding(ck, fid)     # for the cluster driver
     if ok:
         ck.coq_props(["C05/Props.v", "C05/Refuted.v"])
@@ -281,6 +285,8 @@ def main(ck):
                                    cwd=ck.work, env=env) for f in ("time", "size", "none", "lag", "second", "stale", "lagmaster")]
         gprocs.append(subprocess.Popen([binp, "group", "0", "replayrace"], stdout=subprocess.PIPE, stderr=subprocess.DEVNULL, text=True,
                                        cwd=ck.work, env=env))
+        pproc = subprocess.Popen([binp, "persist", str(6 if ck.tier == "quick" else 60)], stdout=subprocess.PIPE, stderr=subprocess.DEVNULL,
+                                 text=True, cwd=ck.work, env=env)
         cth = threading.Thread(target=cluster, args=(ck,))
         cth.start()
         rc, out = ck.run([binp, "cases", str(n)], timeout=3000)
@@ -289,6 +295,15 @@ def main(ck):
             ck.broken.append("harness c05 failed rc=%d cases=%d: %s" % (rc, len(cases), out[-600:]))
             cth.join()
             return
+        try:
+            pout, _ = pproc.communicate(timeout=900)
+        except subprocess.TimeoutExpired:
+            pproc.kill()
+            pout = ""
+        pc = [json.loads(l) for l in pout.splitlines() if l.startswith('{"kind"')]
+        if len(pc) < 3 + (6 if ck.tier == "quick" else 60):
+            ck.broken.append("harness c05 persist produced %d cases" % len(pc))
+        cases += pc
         for gp in gprocs:
             try:
                 gout, _ = gp.communicate(timeout=600)
@@ -308,7 +323,7 @@ def main(ck):
         ck.cov["observation_write_on_stopped_raft_node"] = stopped[0]   # outside the fault space; see NOTES.md
     ck.log("harness done: %d cases" % len(cases))
     for i, c in enumerate(cases):
-        if c["kind"] in ("trunc", "send") and c.get("err"):
+        if c["kind"] in ("trunc", "send", "persist") and c.get("err"):
             ck.broken.append("harness case %d (%s) could not be run: %s" % (i, c["kind"], c["err"]))
     # sanity of the replay observations (contiguous range ending at commit)
     for i, c in enumerate(cases):
@@ -441,7 +456,7 @@ def main(ck):
             return len(c.get("groups") or []) > 1
         if k == "replay":
             return bool(c.get("clears")) or c["commit"] > c["appliedAt"]
-        if k in ("conflict", "coord", "group", "send", "batch"):
+        if k in ("conflict", "coord", "group", "send", "batch", "persist"):
             return True
         if k == "readsel":
             return len(c.get("sel") or []) > 0
